@@ -11,7 +11,7 @@
 From Tpl Require Export Sys.Reload.
 From Coq Require Import Arith.
 
-Inductive tstate :=
+Inductive cthread :=
 | TReload (b : build)                        (* Reload: about to call the builder (outcome b) *)
 | TBuilt (v : version)                       (* Reload: built, about to store under the lock *)
 | TReq (ex : bool)                           (* request: about to load the field under the read lock *)
@@ -20,7 +20,7 @@ Inductive tstate :=
 
 (* the operation a thread executes, as an operation of the sequential model (non-hot mode: the build outcome that
    Render carries is unused there) *)
-Definition op_of_start (t : tstate) : option op :=
+Definition op_of_start (t : cthread) : option op :=
   match t with
   | TReload b => Some (Reload b)
   | TReq ex => Some (Get ex BFail)
@@ -29,7 +29,7 @@ Definition op_of_start (t : tstate) : option op :=
 
 (* one atomic step of a thread against the shared field; the boolean says whether this step is the operation's
    LINEARIZATION step (the failing build, the store, the load) *)
-Definition tstep (c : option version) (t : tstate) : option version * tstate * bool :=
+Definition tstep (c : option version) (t : cthread) : option version * cthread * bool :=
   match t with
   | TReload (BOk v) => (c, TBuilt v, false)
   | TReload BFail => (c, TDone AReloadErr, true)
@@ -47,7 +47,7 @@ Fixpoint set_nth {A} (l : list A) (i : nat) (x : A) : list A :=
   | y :: r, S j => y :: set_nth r j x
   end.
 
-Record cstate := mkCS { c_cur : option version; c_threads : list tstate; c_lin : list nat (* linearized thread numbers, oldest first *) }.
+Record cstate := mkCS { c_cur : option version; c_threads : list cthread; c_lin : list nat (* linearized thread numbers, oldest first *) }.
 
 Definition cstep (s : cstate) (i : nat) : cstate :=
   match nth_error (c_threads s) i with
@@ -59,13 +59,13 @@ Definition cstep (s : cstate) (i : nat) : cstate :=
 
 Definition crun (s : cstate) (sched : list nat) : cstate := fold_left cstep sched s.
 
-Definition cinit (c : option version) (threads : list tstate) : cstate := mkCS c threads [].
+Definition conc_init (c : option version) (threads : list cthread) : cstate := mkCS c threads [].
 
 (* all threads start at the beginning of an operation *)
-Definition fresh (threads : list tstate) : Prop := forall t, In t threads -> op_of_start t <> None.
+Definition fresh (threads : list cthread) : Prop := forall t, In t threads -> op_of_start t <> None.
 
 (* the sequential history that a linearization order denotes *)
-Definition ops_of (threads : list tstate) (lin : list nat) : list op :=
+Definition ops_of (threads : list cthread) (lin : list nat) : list op :=
   flat_map (fun i => match nth_error threads i with
                      | Some t => match op_of_start t with Some o => [o] | None => [] end
                      | None => [] end) lin.
